@@ -102,6 +102,45 @@ def cqd_check(rng, spec, ops, driver=None):
             k = rng.randrange(n)
             tp[it][rng.randrange(nt)] = np.asarray(d["measures"][k], dtype=np.float64) + rng.choice([0.0, 0.0, 2.0 ** -30])
     snap = {k: np.array(v, copy=True) for k, v in d.items() if v.dtype != object}
+    # cqd_score is a pure query: the archive's geometry (bounds, boundaries, centroids, ...) must be the same object-for-object afterwards
+    def geometry():
+        g = {}
+        for prop in ("lower_bounds", "upper_bounds", "interval_size", "dims", "centroids", "boundaries"):
+            if hasattr(type(archive), prop):
+                try:
+                    v = getattr(archive, prop)
+                    g[prop] = [np.array(x, copy=True) for x in v] if isinstance(v, list) else np.array(v, copy=True)
+                except Exception:  # noqa
+                    pass
+        return g
+
+    def same_geometry(a, b):
+        return a.keys() == b.keys() and all((len(a[k]) == len(b[k]) and all(np.array_equal(x, y) for x, y in zip(a[k], b[k]))) if isinstance(a[k], list)
+                                           else np.array_equal(a[k], b[k]) for k in a)
+    geo = geometry()
+    if n and "lower_bounds" in geo and "upper_bounds" in geo:
+        # the default dist_max (None): the norm of the archive's extent
+        try:
+            r0 = archive.cqd_score(iterations=iters, target_points=tp, penalties=pens, obj_min=omin, obj_max=omax, dist_ord=1)
+        except Exception as e:  # noqa
+            return "cqd_score(dist_max=None) raised %r on a non-empty archive" % (e,)
+        dm0 = sum(au.F(float(h)) - au.F(float(l)) for l, h in zip(geo["lower_bounds"], geo["upper_bounds"]))
+        if not same_geometry(geo, geometry()):
+            return "cqd_score (default dist_max) modified the archive's geometry: %s -> %s" % (
+                {k: np.asarray(v).tolist() for k, v in geo.items() if k in ("lower_bounds", "upper_bounds")},
+                {k: np.asarray(v).tolist() for k, v in geometry().items() if k in ("lower_bounds", "upper_bounds")})
+        if dm0 > 0:
+            objs0 = [au.F(x) for x in d["objective"]]
+            meas0 = [[au.F(x) for x in row] for row in d["measures"]]
+            exp0 = Fraction(0)
+            for it in range(iters):
+                for pen in pens:
+                    for t in tp[it]:
+                        exp0 += max(o / orng - au.F(pen) * sum(abs(m - au.F(tc)) for m, tc in zip(mm, t)) / dm0 for o, mm in zip(objs0, meas0))
+            exp0 /= iters
+            got0 = au.F(r0.mean)
+            if isinstance(got0, float) or abs(got0 - exp0) > Fraction(1, 10 ** 6) * (abs(exp0) + 1):
+                return "cqd_score(dist_max=None).mean = %r but the formula with dist_max = |upper - lower|_1 = %r gives %r" % (float(r0.mean), float(dm0), float(exp0))
     if n:
         # other norms (the default Euclidean one, the max norm), in floating point: the per-pair distance is the norm of the difference
         for ordv, name in ((None, "default (Euclidean)"), (np.inf, "inf")):
@@ -161,6 +200,8 @@ def cqd_check(rng, spec, ops, driver=None):
     for k, v in snap.items():
         if not np.array_equal(v, d2[k]):
             return "cqd_score modified the archive field %s" % k
+    if not same_geometry(geo, geometry()):
+        return "cqd_score modified the archive's geometry (bounds / boundaries / centroids)"
     return None
 
 
